@@ -39,7 +39,7 @@ type nWorker struct {
 }
 
 var (
-	nTableMu sync.Mutex                          // writers (controllers) only
+	nTableMu sync.Mutex                         // writers (controllers) only
 	nTable   atomic.Pointer[map[int64]*nWorker] // copy-on-write: lookups by the hook take no lock
 )
 
